@@ -191,7 +191,8 @@ func cliSafeExpr(s string) bool {
 }
 
 // quickTokens: SmallTokens without the keyword spellings of the operators and the blank (the
-// sequences are also joined with blanks): the alphabet of the length-4 stream of the quick tier.
+// sequences are also joined with blanks): the alphabet of the stream one token longer than the
+// exhaustive one (length 4 in the quick tier, 5 in the thorough tier).
 var quickTokens = []string{"1", "[1]", "x", "return", "+", "<<", "2*", "(", ")", "=", "3", "\n"}
 
 func gen(tier string, r *lib.Rand, emitNow func(string)) {
@@ -214,8 +215,8 @@ func gen(tier string, r *lib.Rand, emitNow func(string)) {
 	toklen, smalllen, nrandtok, nscripts, nmut, nbytes, nexpr := 3, 4, 4000, 1500, 4000, 4000, 6000
 	ncliScripts, ncliSearch := 420, 260
 	if thorough {
-		toklen, smalllen, nrandtok, nscripts, nmut, nbytes, nexpr = 4, 5, 100000, 40000, 100000, 100000, 200000
-		ncliScripts, ncliSearch = 6000, 3000
+		toklen, smalllen, nrandtok, nscripts, nmut, nbytes, nexpr = 4, 5, 50000, 20000, 50000, 50000, 200000
+		ncliScripts, ncliSearch = 5000, 2500
 	}
 
 	// ---------------- the real binary: cases collected first, run concurrently, emitted at the end
@@ -290,10 +291,7 @@ func gen(tier string, r *lib.Rand, emitNow func(string)) {
 	}
 	// (a) every token sequence up to toklen; the reduced alphabet one longer
 	TokenSequences(toklen, func(src string) { emit("lib " + hex(src)) })
-	small := SmallTokens
-	if !thorough {
-		small = quickTokens
-	}
+	small := quickTokens
 	for n := toklen + 1; n <= smalllen; n++ {
 		SequencesOver(small, n, func(src string) { emit("lib " + hex(src)) })
 	}
